@@ -13,15 +13,24 @@ class _Weighted(Entry):
     tol = TOL64
     family = "additive"
 
+    def configs(self, rng, quick=True):
+        # "_ws": every weight of every batch multiplied by 2^_ws (tiny / huge totals; exact powers of two)
+        return [{}, {}, {"_ws": -40}, {"_ws": 40}, {"_ws": -24}]
+
+    def kwargs(self, cfg):
+        return {}
+
     def gen_batch(self, rng, cfg, n):
         shape2 = rng.random() < 0.25 and n % 2 == 0 and n > 0
         xs = grid(rng, n, 8, -16, 16)
-        mode = rng.choice(["none", "scalar", "each"])
+        ws = cfg.get("_ws", 0)
+        sc = Fraction(2) ** ws
+        mode = rng.choice(["none", "scalar", "each"] if not ws else ["scalar", "each"])
         b = {"x": xs, "wmode": mode, "rows": 2 if shape2 else 0}
         if mode == "scalar":
-            b["w"] = rng.choice(WEIGHTS)
+            b["w"] = rng.choice(WEIGHTS) * sc
         elif mode == "each":
-            b["ws"] = [rng.choice(WEIGHTS) for _ in range(n)]
+            b["ws"] = [rng.choice(WEIGHTS) * sc for _ in range(n)]
         return b
 
     def _shape(self, b, t):
